@@ -137,12 +137,8 @@ def run(ctx):
     decl = [v for d in f.nodes if d.get("k") == "decl" for v in d["vars"] if v["n"] == "isLocatedUnderRootPath" and "init" in v]
     okd = len(decl) == 1
     if okd:
-        init = core(f.nodes[decl[0]["init"]])
-        txt = expr_str(init)
-        # true exactly when no roots are configured
-        okd = (init.get("k") == "cond" and expr_plain(core(init.child("c"))) in ("(roots.size() == 0)", "(0 == roots.size())", "roots.empty()") and
-               core(init.child("a")).get("v") is True and core(init.child("b")).get("v") is False) or \
-            expr_plain(init) in ("roots.empty()", "(roots.size() == 0)", "(0 == roots.size())")
+        # true exactly when no roots are configured (any spelling: roots.size() == 0 ? true : false, roots.empty(), !hasRoots ...)
+        okd = cfg.norm_bool(f, f.nodes[decl[0]["init"]]) == ("roots.empty()", True)
     r.check(okd, "execute|flag-initialised-by-no-roots", "", "isLocatedUnderRootPath is not initialised as `no roots configured`", f)
     oks = len(sets) >= 1
     for n in sets:
@@ -168,10 +164,10 @@ def run(ctx):
     oka = len(blks) == 1
     if oka:
         cnd = blks[0].cond()
-        parts = [expr_plain(x) for x in conj(cnd)]
+        parts = [cfg.norm_bool(f, x) for x in conj(cnd)]
         v = loop.get("var")
-        oka = len(parts) == 2 and any(p_ in ("(roots.size() > 0)", "(0 < roots.size())", "(roots.size() != 0)", "(!roots.empty())") for p_ in parts) and \
-            any(p_ in ("(pathSeparators.find(%s[0], 0) == npos)" % v, "(npos == pathSeparators.find(%s[0], 0))" % v) for p_ in parts)
+        oka = len(parts) == 2 and ("roots.empty()", False) in parts and \
+            any(p_ and a_ is not None and "pathSeparators.find(%s[" % v in a_ and "(0)]" in a_.replace("[0]", "[(0)]") and "npos" in a_ and "==" in a_ for a_, p_ in parts)
         s_true = blks[0].succs[0]
         rp = cfg.pos_of(f, rmc)
         head = cfg.any_pos(f, loop.child("c")) if loop.child("c") is not None else None
